@@ -155,12 +155,12 @@ theorem longestLineLength_scale (hk : 0 < k) (c : AlgoConstants Rat) (lines : Li
     · intro child
       simp only [scale_simp, hk]
 
-/-- `intrinsicTarget` reads `content_flex_fraction`: homogeneous unless the floored shrink fraction meets a non-zero
-inner flex basis -/
-theorem intrinsicTarget_scale (hk : 0 < k) (dir : FlexDirection) (item : FlexItem Rat)
-    (h : item.contentFlexFraction < 0 → item.innerFlexBasis = 0 ∨ 1 ≤ item.flexShrink * item.innerFlexBasis) :
+/-- `intrinsicTarget` reads `content_flex_fraction`: a positive fraction is a length multiplied by the (pure) grow
+factor, a negative one a pure number multiplied by the scaled shrink factor `max(1, flex_shrink) · inner_flex_basis`
+(a length); homogeneous, no side condition -/
+theorem intrinsicTarget_scale (hk : 0 < k) (dir : FlexDirection) (item : FlexItem Rat) :
     intrinsicTarget dir (scale k item) = scale k (intrinsicTarget dir item) := by
-  have key : ∀ c' : Rat, c' = cffScale k item.contentFlexFraction item.flexShrink item.innerFlexBasis →
+  have key : ∀ c' : Rat, c' = cffScale k item.contentFlexFraction →
       (if Num.fgt c' 0 = true then Num.fmax 1 item.flexGrow * c'
       else if Num.flt c' 0 = true then Num.fmax 1 item.flexShrink * scale k item.innerFlexBasis * c'
       else 0) =
@@ -172,29 +172,16 @@ theorem intrinsicTarget_scale (hk : 0 < k) (dir : FlexDirection) (item : FlexIte
     simp only [fgt_def, flt_def, decide_eq_true_eq, scale_rat]
     rcases lt_trichotomy item.contentFlexFraction 0 with hc | hc | hc
     · have hnp : ¬ (0 < item.contentFlexFraction) := not_lt.2 hc.le
-      rcases h hc with hb | hp
-      · have e : c' = k * item.contentFlexFraction := by
-          rw [hc', cffScale, if_neg]
-          · rfl
-          · rintro ⟨_, h1⟩
-            rw [hb] at h1
-            norm_num at h1
-        have hkc : k * item.contentFlexFraction < 0 := mul_neg_of_pos_of_neg hk hc
-        simp only [e, if_neg (not_lt.2 hkc.le), if_pos hkc, if_neg hnp, if_pos hc, hb]
-        ring
-      · have e : c' = item.contentFlexFraction := by
-          rw [hc', cffScale, if_pos ⟨hc, hp⟩]
-        simp only [e, if_neg hnp, if_pos hc]
-        ring
+      have e : c' = item.contentFlexFraction := by rw [hc', cffScale, if_pos hc]
+      simp only [e, if_neg hnp, if_pos hc]
+      ring
     · have e : c' = 0 := by rw [hc', hc, cffScale_zero]
       rw [e, hc]
       simp only [lt_self_iff_false, if_false, mul_zero]
     · have hn : ¬ (item.contentFlexFraction < 0) := not_lt.2 hc.le
       have e : c' = k * item.contentFlexFraction := by
-        rw [hc', cffScale, if_neg]
-        · rfl
-        · rintro ⟨h1, _⟩
-          exact hn h1
+        rw [hc', cffScale, if_neg hn]
+        rfl
       have hkc : 0 < k * item.contentFlexFraction := mul_pos hk hc
       simp only [e, if_pos hkc, if_pos hc]
       ring
